@@ -3,8 +3,8 @@ package main
 // C06 — reading a counter file is total and faithful (structural part).
 
 import (
-	"os"
 	"fmt"
+	"os"
 	"sort"
 	"strings"
 
